@@ -37,6 +37,7 @@ import (
 	"time"
 
 	"github.com/bamzi/jobrunner"
+	"github.com/robfig/cron/v3"
 	"pgregory.net/rapid"
 
 	"github.com/mimiro-io/datahub/internal/server"
@@ -918,6 +919,8 @@ func (env *c11StormEnv) run(c c11Storm) (problem string, inconclusive bool, extr
 	env.probe = probe
 	env.mu.Unlock()
 	ids := make([]string, c.Jobs)
+	cfgJSON := make([]string, c.Jobs)
+	var schedMu sync.RWMutex // the harness' own reads of Runner.scheduledJobs vs. its redeploy requests
 	for k := 0; k < c.Jobs; k++ {
 		ids[k] = fmt.Sprintf("storm%d-%d", env.seq, k)
 		topic := fmt.Sprintf("stormtopic%d-%d", env.seq, k)
@@ -927,6 +930,14 @@ func (env *c11StormEnv) run(c c11Storm) (problem string, inconclusive bool, extr
 			cronType = JobTypeFull
 		}
 		eh := []any{map[string]any{"errorHandler": "reRun", "maxRetries": 2, "retryDelay": 1}}
+		cfgJSON[k] = vjJobJSON(vjJob{ID: ids[k],
+			Source:    map[string]any{"Type": "SlowSource", "Sleep": fmt.Sprintf("%dms", c.SrcMs), "BatchSize": 2},
+			Transform: vjJSTransform(c11StormJS(ids[k], c.HoldMs, c.FailBits[k]), 0),
+			Sink:      map[string]any{"Type": "DevNullSink"},
+			Triggers: []map[string]any{
+				{"triggerType": "cron", "jobType": cronType, "schedule": "@every 24h", "onError": eh},
+				{"triggerType": "onchange", "jobType": JobTypeIncremental, "monitoredDataset": topic},
+			}})
 		cfg, err := h.Sched.Parse([]byte(vjJobJSON(vjJob{ID: ids[k],
 			Source:    map[string]any{"Type": "SlowSource", "Sleep": fmt.Sprintf("%dms", c.SrcMs), "BatchSize": 2},
 			Transform: vjJSTransform(c11StormJS(ids[k], c.HoldMs, c.FailBits[k]), 0),
@@ -979,9 +990,31 @@ func (env *c11StormEnv) run(c c11Storm) (problem string, inconclusive bool, extr
 			id := ids[r.Job]
 			switch r.Kind {
 			case "cron":
-				for _, eid := range h.Runner.scheduledJobs[id] {
-					jobrunner.MainCron.Entry(eid).Job.Run()
+				schedMu.RLock()
+				eids := append([]cron.EntryID{}, h.Runner.scheduledJobs[id]...)
+				schedMu.RUnlock()
+				for _, eid := range eids {
+					if e := jobrunner.MainCron.Entry(eid); e.Job != nil {
+						e.Job.Run()
+					}
 				}
+			case "redeploy":
+				// what a deployment of job definitions does: delete the job, add it again under the same
+				// id - also while a run of it is in progress
+				schedMu.Lock()
+				_ = h.Sched.DeleteJob(id)
+				if cfg, err := h.Sched.Parse([]byte(cfgJSON[r.Job])); err == nil {
+					if h.Sched.AddJob(cfg) == nil {
+						for _, t := range cfg.Triggers {
+							for _, e := range t.ErrorHandlers {
+								if e.Type == ErrorHandlerReRun {
+									e.RetryDelay = int64(time.Millisecond)
+								}
+							}
+						}
+					}
+				}
+				schedMu.Unlock()
 			case "event":
 				h.Bus.Emit(context.Background(), fmt.Sprintf("dataset.stormtopic%d-%d", env.seq, r.Job), nil)
 			case "manual-incr":
@@ -1124,7 +1157,7 @@ func TestVerif_C11_storm(t *testing.T) {
 		}
 		perJob := map[int]int{}
 		for _, r := range c.Reqs {
-			if r.Kind != "kill" {
+			if r.Kind != "kill" && r.Kind != "redeploy" {
 				perJob[r.Job]++
 			}
 		}
@@ -1154,7 +1187,7 @@ func TestVerif_C11_storm(t *testing.T) {
 		n := rapid.IntRange(3, 24).Draw(t, "requests")
 		for i := 0; i < n; i++ {
 			c.Reqs = append(c.Reqs, c11Req{
-				Kind: rapid.SampledFrom([]string{"cron", "cron", "event", "event", "manual-incr", "manual-full", "kill"}).Draw(t, "kind"),
+				Kind: rapid.SampledFrom([]string{"cron", "cron", "cron", "event", "event", "event", "manual-incr", "manual-incr", "manual-full", "kill", "redeploy"}).Draw(t, "kind"),
 				Job:  rapid.IntRange(0, c.Jobs-1).Draw(t, "job"),
 				AtUs: rapid.IntRange(0, 4000).Draw(t, "atUs"),
 			})
